@@ -141,8 +141,92 @@ def run(ctx):
         if proof_err is None:
             ctx.broken('corr/core model evaluation', e.log)
             return
+    # user generics that subclass a subscripted container (class IntList(list[int])), alone and as members of unions, below
+    # containers: every item of the violating objects is bad, so every call must reject; conforming ones must pass
+    probe = user_generic_probe()
+    ctx.extra['user_generic_probe'] = probe if 'probe_failed' in probe else {k: v for k, v in probe.items() if v != 'as required'} or 'all as required'
+    ctx.evaluations += len(probe)
+    if 'probe_failed' in probe:
+        failures += 1
+        ctx.report({'clause': 'user_generic_probe_failed'}, {'observed': probe}, 'the probe of user generics crashed')
+    else:
+        for name, verdict in probe.items():
+            if verdict != 'as required':
+                failures += 1
+                if ctx.report({'clause': 'missed_detection' if 'accepted' in verdict else 'false_alarm', 'stream': 'user_generic',
+                               'case': name.split(' [')[0]},
+                              {'case': name, 'observed': verdict}, 'a user generic over a subscripted container is not checked as its base demands: ' + name) != 'violation':
+                    failures -= 1
+                    continue
+                break
     if proof_err is not None and not failures:
         ctx.broken(f'{PROP} ({proof_err.what})', proof_err.log)
+
+
+def user_generic_probe():
+    import subprocess
+    from harness.common import PY, impl_env
+    code = r'''
+import json, warnings
+warnings.simplefilter('ignore')
+from typing import Generic, Optional, TypeVar, Union
+from beartype import BeartypeConf, beartype
+from beartype.door import die_if_unbearable, is_bearable
+from beartype.roar import BeartypeException
+T = TypeVar('T')
+class IntList(list[int]): pass
+class ListOf(list[T]): pass
+class StrKeyed(dict[str, T]): pass
+class Pair(tuple[int, str]): pass
+K = TypeVar('K'); V = TypeVar('V')
+class Rev(dict[V, K], Generic[K, V]): pass      # declares its type variables in another order than its base uses them
+CASES = [
+ ('Rev[int, str] (reordered type variables)', Rev[int, str], Rev({'a': 1}), Rev({1: 'a'})),
+ ('IntList', IntList, IntList([1, 2]), IntList(['a', 'b', 'c'])),
+ ('IntList | None', IntList | None, IntList([1, 2]), IntList(['a', 'b', 'c'])),
+ ('Optional[IntList]', Optional[IntList], None, IntList(['a'])),
+ ('Union[IntList, str]', Union[IntList, str], 'x', IntList([b'x', b'y'])),
+ ('Optional[ListOf[int]]', Optional[ListOf[int]], ListOf([1]), ListOf(['a', 'b'])),
+ ('Union[StrKeyed[int], int]', Union[StrKeyed[int], int], StrKeyed({'a': 1}), StrKeyed({1: 'x', 2: 'y'})),
+ ('Pair | None (length)', Pair | None, Pair((1, 'a')), Pair((1, 'a', 'extra'))),
+ ('Pair | None (position)', Pair | None, Pair((1, 'a')), Pair(('a', 1))),
+ ('list[IntList | int]', list[IntList | int], [IntList([1]), 3], [IntList(['a']), IntList(['b'])]),
+ ('dict[str, IntList | None]', dict[str, IntList | None], {'k': None}, {'k': IntList(['a', 'b'])}),
+]
+out = {}
+for name, hint, good, bad in CASES:
+    for conf_name, conf in (('default', BeartypeConf()), ('is_random=False', BeartypeConf(is_random=False))):
+        def f(x): return x
+        f.__annotations__ = {'x': hint, 'return': hint}
+        g = beartype(conf=conf)(f)
+        def passes(obj):
+            res = []
+            for _ in range(12):
+                r = [bool(is_bearable(obj, hint, conf=conf))]
+                try: die_if_unbearable(obj, hint, conf=conf); r.append(True)
+                except BeartypeException: r.append(False)
+                try: g(obj); r.append(True)
+                except BeartypeException: r.append(False)
+                res.append(tuple(r))
+            return res
+        try:
+            pg, pb = passes(good), passes(bad)
+        except Exception as e:
+            out[name + ' [' + conf_name + ']'] = 'raised ' + type(e).__name__ + ': ' + str(e)[:120]
+            continue
+        if not all(all(r) for r in pg):
+            out[name + ' [' + conf_name + ']'] = 'conforming object rejected'
+        elif any(any(r) for r in pb):
+            out[name + ' [' + conf_name + ']'] = 'violating object accepted'
+        else:
+            out[name + ' [' + conf_name + ']'] = 'as required'
+print(json.dumps(out))
+'''
+    p = subprocess.run([PY, '-c', code], capture_output=True, text=True, env=impl_env(), timeout=300)
+    try:
+        return json.loads(p.stdout.strip().splitlines()[-1])
+    except Exception:  # noqa
+        return {'probe_failed': p.stderr[-600:] or 'no output'}
 
 
 def replay(ctx, path):
